@@ -71,6 +71,20 @@ func ApplyChange(ctx context.Context, ds ipld.DAGService, nd *dag.ProtoNode, cs 
 			}
 
 		case Mod:
+			if c.Path == "" {
+				// Diff reports a change of the root itself with an empty
+				// path: the root is replaced by the new node.
+				root, err := ds.Get(ctx, c.After)
+				if err != nil {
+					return nil, err
+				}
+				rootpb, ok := root.(*dag.ProtoNode)
+				if !ok {
+					return nil, dag.ErrNotProtobuf
+				}
+				e = NewDagEditor(rootpb, ds)
+				continue
+			}
 			err := e.RmLink(ctx, c.Path)
 			if err != nil {
 				return nil, err
